@@ -79,6 +79,11 @@ def c17():
     return [pipeline.UnusedReallyUnused()]
 
 
+def c10():
+    from harness import pipeline
+    return [pipeline.IllScopedRejected()]
+
+
 def c03():
     from harness import symtab, pipeline
     return [symtab.SymbolTable(), pipeline.ClassicBuilds()]
@@ -98,6 +103,7 @@ REGISTRY = {
     'C14': dict(harnesses=c14, run=_runner('C14', c14)),
     'C02': dict(harnesses=c02, run=_runner('C02', c02)),
     'C03': dict(harnesses=c03, run=_runner('C03', c03)),
+    'C10': dict(harnesses=c10, run=_runner('C10', c10)),
     'C17': dict(harnesses=c17, run=_runner('C17', c17)),
     'C13': dict(harnesses=c13, run=_runner('C13', c13)),
     'C01': dict(harnesses=c01, run=_runner('C01', c01)),
